@@ -106,17 +106,17 @@ Proof. reflexivity. Qed.
 Lemma br_engine k call size : bracketed (engine k call size).
 Proof.
   intros s r s' H. unfold engine in H. rewrite bind_emit in H.
-  set (s1 := snd (emit K_ENGCALL [call; size] s)) in *.
-  assert (T0 : o_trace s1 = (K_ENGCALL, [call; size]) :: o_trace s) by reflexivity.
-  assert (Hstart : forall n (sx : os), extends s1 sx n -> extends s sx (n ++ [(K_ENGCALL, [call; size])])).
+  set (s1 := snd (emit K_ENGCALL [call; size; k] s)) in *.
+  assert (T0 : o_trace s1 = (K_ENGCALL, [call; size; k]) :: o_trace s) by reflexivity.
+  assert (Hstart : forall n (sx : os), extends s1 sx n -> extends s sx (n ++ [(K_ENGCALL, [call; size; k])])).
   { intros n sx X. unfold extends in *. rewrite X, T0, <- app_assoc. reflexivity. }
-  assert (Hin : forall n, Forall inner_kind n -> forall d, scan d (rev (n ++ [(K_ENGCALL, [call; size])])) = Some (S d)).
+  assert (Hin : forall n, Forall inner_kind n -> forall d, scan d (rev (n ++ [(K_ENGCALL, [call; size; k])])) = Some (S d)).
   { intros n F d. rewrite rev_app_distr. cbn [rev app]. cbn [scan fst]. rewrite Z.eqb_refl.
     apply scan_inner; [now apply Forall_rev|lia]. }
   (* leaving the engine call abnormally after the inner entries n *)
   assert (Habn : forall n, Forall inner_kind n -> extends s1 s' n -> okres r = false ->
      exists new, extends s s' new /\ forall d, exists d', scan d (rev new) = Some d' /\ (d <= d')%nat /\ (okres r = true -> d' = d)).
-  { intros n F X Hr. exists (n ++ [(K_ENGCALL, [call; size])]). split; [now apply Hstart|].
+  { intros n F X Hr. exists (n ++ [(K_ENGCALL, [call; size; k])]). split; [now apply Hstart|].
     intros d. exists (S d). split; [now apply Hin|]. split; [lia|]. rewrite Hr. discriminate. }
   apply bind_inv in H. destruct H as [[[] [s2 [Hq H]]]|[r0 [Hq [Hn ->]]]].
   2:{ apply (Habn [] (Forall_nil _)); [unfold extends; now rewrite (quiet_upd_tls _ _ _ _ _ Hq)|destruct r0; cbn in *; congruence]. }
@@ -141,10 +141,10 @@ Proof.
               (Ok rr : res (Z * Z), snd (emit K_ENG [call; size; e3; e4; e5] sa)) = (r, s') ->
               exists new, extends s s' new /\ forall d, exists d', scan d (rev new) = Some d' /\ (d <= d')%nat /\ (okres r = true -> d' = d)).
     { intros sa e3 e4 e5 rr Qa E. injection E as Er Es. subst r s'.
-      exists ((K_ENG, [call; size; e3; e4; e5]) :: ni ++ [(K_ENGCALL, [call; size])]). split.
+      exists ((K_ENG, [call; size; e3; e4; e5]) :: ni ++ [(K_ENGCALL, [call; size; k])]). split.
       - unfold extends in *. cbn [o_trace]. rewrite Qa, X4, T0. cbn. rewrite <- app_assoc. reflexivity.
       - intros d. exists d. split; [|split; [lia|reflexivity]].
-        change ((K_ENG, [call; size; e3; e4; e5]) :: ni ++ [(K_ENGCALL, [call; size])]) with ([(K_ENG, [call; size; e3; e4; e5])] ++ (ni ++ [(K_ENGCALL, [call; size])])).
+        change ((K_ENG, [call; size; e3; e4; e5]) :: ni ++ [(K_ENGCALL, [call; size; k])]) with ([(K_ENG, [call; size; e3; e4; e5])] ++ (ni ++ [(K_ENGCALL, [call; size; k])])).
         rewrite rev_app_distr, scan_app. pose proof (Hin ni Fi d) as Hd. unfold raw in *. rewrite Hd. cbn. reflexivity. }
     destruct (negb (st =? 0)).
     + rewrite bind_emit in H. eapply (Hfin s4); [reflexivity|exact H].
